@@ -490,6 +490,39 @@ fn doc_corr_corner() -> Vec<(&'static str, &'static str)> {
     ]
 }
 
+/// pixel-less images with extreme dimensions, in every view kind that embeds an image, bare and inside a flex
+/// and a container: the exact boundaries of `usize` arithmetic on the declared size (layout of `image_ascii`
+/// computes `h / 2 + h % 2`, `Image` computes cells from pixels)
+fn extreme_image_docs() -> Vec<(String, String)> {
+    let dims: [u64; 8] = [u64::MAX, u64::MAX - 1, 1 << 63, (1 << 63) - 1, (1 << 62) + 1, (1u64 << 32) + 1, (1u64 << 32) - 1, 3];
+    let mut docs = Vec::new();
+    for d in dims {
+        for (h, w) in [(d, 0u64), (0u64, d)] {
+            for ch in [1u64, 3, 4] {
+                let body = format!("\"size\":[{h},{w}],\"channels\":{ch},\"data\":\"\"");
+                docs.push(("image".to_string(), format!("{{{body}}}")));
+                for ty in ["image", "image_ascii"] {
+                    let leaf = format!("{{\"type\":\"{ty}\",{body}}}");
+                    docs.push(("view".to_string(), leaf.clone()));
+                    docs.push(("view".to_string(), format!("{{\"type\":\"flex\",\"direction\":\"vertical\",\"children\":[{{\"flex\":1,\"view\":{leaf}}},{{\"type\":\"text\",\"text\":\"x\"}}]}}")));
+                    docs.push(("view".to_string(), format!("{{\"type\":\"container\",\"vertical\":\"expand\",\"margins\":{{\"top\":1}},\"child\":{leaf}}}")));
+                }
+            }
+        }
+    }
+    docs
+}
+
+/// the extreme image documents as correspondence cases (with layouts).  In-process, so only after the child
+/// processes have shown that none of them hangs or aborts.
+fn doc_corr_extreme(ctx: &mut Ctx) {
+    for (kind, text) in extreme_image_docs() {
+        if kind == "view" {
+            doc_corr_case(ctx, "view", &text, true);
+        }
+    }
+}
+
 fn doc_corr_part(ctx: &mut Ctx) {
     let t = ctx.thorough;
     for (k, d) in doc_corr_corner() {
